@@ -19,7 +19,7 @@ From RU Require Import Base.Prelude Base.Utf8 Base.Outcome_c15 Model.AsciiSet Ge
   Proofs.C06_Port Proofs.C06_Cred Proofs.C06_Scheme Proofs.C06_HostNone Proofs.C06_Host Proofs.C06_Segments Proofs.C06_Path Proofs.C06_PathNoAuth Proofs.C06_Main
   Proofs.C06_PathMore Proofs.C06_Quirks Proofs.C05_Enc Proofs.C05_Parser Proofs.C05_Setters Proofs.C05_ParseAll Proofs.C05_CompSteps
   Proofs.C04_ParseTotal Proofs.C03_ReachParts Proofs.C03_Reach Proofs.C03_ReachFile Proofs.C03_ReachAll Proofs.C03_Reachability Proofs.C03_PortInv
-  Proofs.C03_AuthEnd Proofs.C05_BaseOk Proofs.C05_AuthOfs Proofs.C05_AuthParse Proofs.C05_HostText Proofs.C05_Qpm
+  Proofs.C03_AuthEnd Proofs.C05_BaseOk Proofs.C05_AuthOfs Proofs.C05_AuthParse Proofs.C05_HostText Proofs.C05_Alphabet Proofs.C05_Qpm
   Proofs.C03_ReachAscii Proofs.C03_Views Proofs.C03_ParseFront Proofs.C03_PortParse Proofs.C03_ReachKnown Proofs.C03_ReachJoin
   Proofs.C03_SessNoSS.
 Open Scope N_scope.
@@ -283,6 +283,43 @@ Proof.
       constructor; [unfold ok_or_space; lia | apply Forall_nskipn; exact Hoks].
 Qed.
 
+(* ---------- the byte alphabet along a step with Rust-typed arguments ---------- *)
+Lemma apply_op_oks_args dbg hp hpo hd u o u' : HostOK hp hpo hd -> IpOKv hd -> op_args_ok o ->
+  apply_op dbg hp hpo hd u o = Some u' -> Forall ok_or_space (ser u) -> Forall ok_or_space (ser u').
+Proof.
+  intros HOK HV Ha H Hs. rewrite apply_op5 in H.
+  change (okl ok_or_space (ser u')). change (okl ok_or_space (ser u)) in Hs.
+  destruct o; cbn [op5 C05_History.apply_op] in H; cbn [op_args_ok] in Ha;
+    try (apply C05_History.drop_status_some in H; destruct H as [st H]).
+  - eapply set_fragment_okl; [exact ok_byte_or_space | eassumption ..].
+  - eapply set_query_okl; [exact ok_byte_or_space | eassumption ..].
+  - eapply set_path_okl; [exact ok_byte_or_space | exact ok_or_space_32 | eassumption ..].
+  - eapply set_port_okl; [exact ok_byte_or_space | eassumption ..].
+  - eapply set_host_okl; [exact ok_byte_or_space | exact HOK | eassumption ..].
+  - eapply set_ip_host_okl; [exact ok_byte_or_space | | exact H | exact Hs].
+    apply (okl_ok _ ok_byte_or_space). apply HV. destruct h; exact Ha.
+  - eapply set_password_okl; [exact ok_byte_or_space | eassumption ..].
+  - eapply set_username_okl; [exact ok_byte_or_space | eassumption ..].
+  - eapply set_scheme_okl; [exact ok_byte_or_space | eassumption ..].
+  - eapply path_segments_session_okl; [exact ok_byte_or_space | eassumption ..].
+  - eapply q_set_protocol_okl; [exact ok_byte_or_space | eassumption ..].
+  - eapply q_set_username_okl; [exact ok_byte_or_space | eassumption ..].
+  - eapply q_set_password_okl; [exact ok_byte_or_space | eassumption ..].
+  - eapply q_set_host_okl; [exact ok_byte_or_space | exact HOK | eassumption ..].
+  - eapply q_set_hostname_okl; [exact ok_byte_or_space | exact HOK | eassumption ..].
+  - eapply q_set_port_okl; [exact ok_byte_or_space | eassumption ..].
+  - eapply q_set_pathname_okl; [exact ok_byte_or_space | exact ok_or_space_32 | eassumption ..].
+  - eapply q_set_search_okl; [exact ok_byte_or_space | eassumption ..].
+  - eapply q_set_hash_okl; [exact ok_byte_or_space | eassumption ..].
+Qed.
+
+(* the display of an address value is a host text, from C02's clause for addresses *)
+Lemma ipwf_of_clause hp hpo hd : HostWf hp hpo hd -> ip_clause hp hpo hd -> IpWf hd.
+Proof.
+  intros (W1 & _) HC h Hh. destruct (HC h Hh) as (_ & E & _). apply (W1 (hd h) h E).
+  destruct h as [d|a|p]; cbn in Hh; [contradiction | discriminate | discriminate].
+Qed.
+
 (* ---------- every record of C02's Reachable3 ---------- *)
 Section Reach3.
 Variable dbg : bool.
@@ -292,7 +329,7 @@ Hypothesis HW : HostWf hp hpo hd.
 Hypothesis HNE : host_nonempty hp hpo.
 Hypothesis HIPW : IpWf hd.
 Hypothesis HOK : HostOK hp hpo hd.
-Hypothesis HIP : IpOK hd.
+Hypothesis HIP : IpOKv hd.
 Hypothesis HSS : SessNoSS dbg.
 
 Theorem reach3_inv u : Reachable3 dbg hp hpo hd u -> inv03 u /\ Forall ok_or_space (ser u).
@@ -305,8 +342,7 @@ Proof using HW HNE HIPW HOK HIP HSS.
   - destruct IH as [Iu Ou]. split.
     + apply (inv03_step dbg hp hpo hd HW (proj1 HNE) HIPW u o u' Iu Ha); [|exact H].
       exact (known_k dbg hp hpo hd HW HNE HSS u o u' Iu Ha Hk H).
-    + rewrite apply_op5 in H.
-      exact (C05_History.apply_op_okl dbg hp hpo hd ok_or_space ok_byte_or_space ok_or_space_32 HOK HIP u (op5 o) u' (op_valid5 o Ha) H Ou).
+    + exact (apply_op_oks_args dbg hp hpo hd u o u' HOK HIP Ha H Ou).
   - destruct IH as [Iu Ou]. exact (qpm_inv03 dbg u ops u' Iu Ou Hops H).
 Qed.
 End Reach3.
@@ -315,6 +351,6 @@ End Reach3.
 Theorem sess_no_ss dbg : SessNoSS dbg.
 Proof. intros u ops u' W NA Hns Hops H. exact (session_no_ss dbg u ops u' W NA Hns Hops H). Qed.
 
-Theorem reach3_inv_all dbg hp hpo hd : HostWf hp hpo hd -> host_nonempty hp hpo -> IpWf hd -> HostOK hp hpo hd -> IpOK hd ->
+Theorem reach3_inv_all dbg hp hpo hd : HostWf hp hpo hd -> host_nonempty hp hpo -> IpWf hd -> HostOK hp hpo hd -> IpOKv hd ->
   forall u, Reachable3 dbg hp hpo hd u -> inv03 u /\ Forall ok_or_space (ser u).
 Proof. intros HW HNE HIPW HOK HIP. exact (reach3_inv dbg hp hpo hd HW HNE HIPW HOK HIP (sess_no_ss dbg)). Qed.
